@@ -17,6 +17,7 @@ import (
 	"github.com/coder/websocket"
 
 	"github.com/pancsta/asyncmachine-go/internal/utils"
+	"github.com/pancsta/asyncmachine-go/internal/verifhook"
 
 	amhelp "github.com/pancsta/asyncmachine-go/pkg/helpers"
 	am "github.com/pancsta/asyncmachine-go/pkg/machine"
@@ -952,6 +953,7 @@ func (c *Client) clockUpdate(update *MsgSrvUpdate, queueLocked bool) bool {
 
 		// request full sync
 		netMach.clockMx.Unlock()
+		verifhook.Point("cli.update.rejected")
 		return false
 	}
 
@@ -965,6 +967,7 @@ func (c *Client) clockUpdate(update *MsgSrvUpdate, queueLocked bool) bool {
 	c.log("clockUpdate diff OK t%d q%d", mTime.Sum(nil), qTick)
 	// will unlock itself TODO pass mutType?
 	c.netMachInt.UpdateClock(mTime, qTick, machTick)
+	verifhook.Point("cli.update.accepted")
 
 	return true
 }
